@@ -31,7 +31,7 @@ TABLE = [
     ("C18", r".*", r"nfev|naccpt|nstep|njev", ["counters"]),
     ("C19", r".*", r"fsal|proto\.|naccpt", ["counters", "modified_solution_doubling"]),
     ("C02", r".*", r"fsal", ["counters"]),
-    ("C04", r".*", r"term\.|safety", ["termination"]),
+    ("C04", r".*", r"term\.|safety", ["termination", "negative_time_blowup"]),
     ("C17", r"matrix_sub|matrix_add", r".*", ["matrix_arith_dense_model"]),
     ("C17", r".*", r".*", ["matrix_dense_model"]),
     ("C16", r"lucx", r"max_tracks|maximal|multipliers", ["complex_multiplier_modulus", "lu_small"]),
@@ -45,7 +45,10 @@ TABLE = [
     ("C10", r".*", r".*", ["teval_terminal", "events_multi_in_step"]),
     ("C12", r".*", r".*", ["output_options"]),
     ("C13", r".*", r"err\.|norm\.", ["duplication_invariance"]),
-    ("C13", r".*", r".*", ["radau_scalar_vector_tol", "duplication_invariance"]),
+    ("C13", r".*", r"step\.|hinit|dir", ["time_reflection", "pow2_scaling"]),
+    ("C13", r".*", r".*", ["radau_scalar_vector_tol", "duplication_invariance", "time_reflection", "pow2_scaling"]),
+    ("C20", r"cont_R", r".*", ["extrapolate_equals_sol"]),
+    ("C02", r"radau", r".*", ["radau_pade"]),
 ]
 _BUILT = {}
 
